@@ -194,7 +194,7 @@ def helgrind(ctx, cfgs):
             exe = build.build_driver(cfg, 'c20_drv.cpp', extra_ld=['-lpthread'])
         except build.BuildError as e:
             raise harness.HarnessError(str(e)[-1500:])
-        for rep in range(2 if ctx.quick else 12):
+        for rep in range(2 if ctx.quick else 6):
             T = (4, 8)[rep % 2]
             n = 10 if ctx.quick else 24
             seed = ctx.seed * 313 + rep
@@ -237,7 +237,7 @@ def threads(ctx, cfgs):
             exe = build.build_driver(cfg, 'c20_drv.cpp')
         except build.BuildError as e:
             raise harness.HarnessError(str(e)[-1500:])
-        reps = 6 if ctx.quick else 30
+        reps = 6 if ctx.quick else (20 if cfg == cfgs[0] else 4)      # the portable TSan builds are 3-5x slower: fewer schedules there
         for rep in range(reps):
             T = (4, 8, 16)[rep % 3]
             n = 24 if ctx.quick else 60
